@@ -9,6 +9,9 @@ Space (exhaustive within the alphabets below, no sampling):
   options    O = {default,-c,--tab,--indent 0..7} x {-S} x {-a} x {none,-r,-j,--raw-output0}
                  x {--seq} x {route: plain | --arg zz 1}                       (704 combinations)
 Every (document, option combination) is one CLI job through the batch hook.
+(In jq mode `--arg zz 1` is substituted into the program and does not by itself change the printing
+route; the three printers — raw identity / lazy cursor printer / materialised printer — are reached
+through the option combinations: plain `.`, `-S`, `-a`, `--seq` select different ones.)
 
 Oracle: Python `json` (NaN/Infinity rejected, object_pairs_hook) on stdout after removing the
 framing the options ask for; value == generator value under jq's duplicate rule (first position,
@@ -150,7 +153,7 @@ def documents(tier):
         for t in shapes:
             docs.append(t)
     fams.append(("scalars", "all", [mk(t) for t in docs]))
-    keys = [KEYS[i] for i in (0, 1, 2, 4, 6, 9, 11, 12)] if quick else KEYS
+    keys = [KEYS[i] for i in (0, 1, 2, 4, 6, 11, 12)] if quick else KEYS
     docs = [("o", [(k1, S("1", 1)), (k2, S("2", 2))]) for k1 in keys for k2 in keys]
     sub = [KEYS[0], KEYS[4], KEYS[1], KEYS[2], KEYS[11], KEYS[12]]
     if not quick:
@@ -170,24 +173,25 @@ def documents(tier):
     leafs = [("1", 1, True), ('"é"', "é", True), ("[]", [], True), ("{}", {}, True)]
     mid = []
     for d in ([1, 2, 3, 64] if quick else [1, 2, 3, 63, 64, 65, 127, 128, 129]):
-        for shape in ("arr", "obj") if quick else ("arr", "obj", "mixed"):
-            for leaf in leafs[:1] if quick else leafs[:2]:
+        for shape in ("arr", "obj") if quick or d > 100 else ("arr", "obj", "mixed"):
+            for leaf in leafs[:1] if quick or d > 100 else leafs[:2]:
                 t, v, l = nest(shape, d, leaf)
                 mid.append((t.encode(), v, l, f"nest:{shape}:{d}"))
     fams.append(("nesting-moderate", "all", mid))
     lim = []
-    for d in ([128, 129, 255, 256, 257, 300] if quick else [200, 254, 255, 256, 257, 258, 300, 385, 1000]):
-        for shape in ("arr", "obj") if quick else ("arr", "obj", "mixed"):
-            for leaf in ([leafs[0], leafs[2]] if quick and d >= 255 else leafs[:1] if quick else leafs):
+    for d in ([129, 255, 256, 257] if quick else [200, 254, 255, 256, 257, 258, 300, 385, 1000]):
+        shapes = (("arr", "obj") if d in (255, 256) else ("arr",)) if quick else ("arr", "obj", "mixed") if d in (255, 256, 257) else ("arr",)
+        for shape in shapes:
+            lv = [leafs[0]] if quick and d != 256 else [leafs[0], leafs[3] if shape == "obj" else leafs[2]]
+            for leaf in lv:
                 t, v, l = nest(shape, d, leaf)
                 lim.append((t.encode(), v, l, f"nest:{shape}:{d}"))
     fams.append(("nesting-limit", "limit-quick" if quick else "limit", lim))
     if not quick:
         full = []
-        for d in (255, 256):
-            for shape in ("arr", "obj"):
-                t, v, l = nest(shape, d, leafs[0])
-                full.append((t.encode(), v, l, f"nest:{shape}:{d}"))
+        for shape in ("arr", "obj"):
+            t, v, l = nest(shape, 255, leafs[0])     # the deepest document the CLI accepts (scalar at level 255)
+            full.append((t.encode(), v, l, f"nest:{shape}:255"))
         fams.append(("nesting-limit-all-options", "all", full))
     return fams
 
@@ -207,9 +211,9 @@ RAW = [("", []), ("-r", ["-r"]), ("-j", ["-j"]), ("--raw-output0", ["--raw-outpu
 def combos(which):
     fm = FMT
     if which == "limit":
-        fm = [f for f in FMT if f[0] in ("default", "-c", "--tab", "--indent0", "--indent1", "--indent7")]
+        fm = [f for f in FMT if f[0] in ("-c", "--tab", "--indent0", "--indent1")]
     elif which == "limit-quick":
-        fm = [f for f in FMT if f[0] in ("default", "-c", "--indent1")]
+        fm = [f for f in FMT if f[0] in ("-c", "--indent1")]
     out = []
     for f in fm:
         for s in (0, 1):
@@ -392,7 +396,14 @@ def work(shard, combosets, limit):
             part.distinct |= {hash((d[0], o)) for o in outs}
             for (kind, feat), cis in groups.items():
                 ci = min(cis, key=lambda i: (len(cbs[i]["toks"]), i))
-                cb = cbs[ci]
+                cb = dict(cbs[ci])
+                # the format token is dropped from the signature when the failure does not depend on the format: every
+                # format of this combination set fails with the same other flags (the very deep documents run on a
+                # reduced format set that lacks the default format)
+                rest = lambda c: (c["S"], c["a"], c["raw"], c["seq"], c["route"])
+                same = [i for i, c in enumerate(cbs) if rest(c) == rest(cb)]
+                if cb["fmt"] != "default" and all(i in cis for i in same):
+                    cb["toks"] = [t for t in cb["toks"] if t != cb["fmt"]]
                 r = res[di * n + ci]
                 part.fail(sig_of(kind, feat, cb["toks"]), len(d[0]) * 1000 + len(cb["toks"]),
                           {"kind": "c11", "doc_hex": d[0].hex() if len(d[0]) < 3000 else None, "doc": cligen.short(d[0], 200),
